@@ -178,6 +178,9 @@ func RandomTemplate(t *rapid.T, name string, nodeNames []string) corev1.PodTempl
 		tpl.Labels["extendeddaemonset.datadoghq.com/name"] = "bar"
 		tpl.Labels["extendeddaemonsetreplicaset.datadoghq.com/name"] = "bar-stale"
 		tpl.Annotations = map[string]string{"extendeddaemonset.datadoghq.com/templatehash": "stale-hash", "note": "x"}
+		// ... and the pasted metadata may name the namespace and the name prefix of the pod it was copied from (the CRD
+		// schema accepts a full ObjectMeta there): pods still belong in their replica set's namespace, under its name
+		tpl.Namespace, tpl.GenerateName = "ns2", "pasted-"
 	}
 	if rapid.IntRange(0, 2).Draw(t, name+"-has-sel") == 0 {
 		tpl.Spec.NodeSelector = map[string]string{rapid.SampledFrom(LabelKeys).Draw(t, name+"-selk"): rapid.SampledFrom(LabelVals).Draw(t, name+"-selv")}
@@ -217,6 +220,7 @@ func LetterTemplate(letter byte) corev1.PodTemplateSpec {
 		tpl.Labels["extendeddaemonset.datadoghq.com/name"] = "bar"
 		tpl.Labels["extendeddaemonsetreplicaset.datadoghq.com/name"] = "bar-stale"
 		tpl.Annotations = map[string]string{"checksum/config": "c1", "note": "c", "extendeddaemonset.datadoghq.com/templatehash": "stale-hash"}
+		tpl.Namespace, tpl.GenerateName = "ns2", "pasted-"
 		tpl.Spec.Containers[0].Env = []corev1.EnvVar{{Name: "X", Value: "1"}}
 		tpl.Spec.Containers = append(tpl.Spec.Containers, corev1.Container{Name: "side", Image: "side:1"})
 	case 'D':
